@@ -43,10 +43,18 @@ UNITS = [
     unit('kick_lk', 'q_kick_lk', QS + 'kick_lk(%s, std::unique_lock<std::mutex>&)' % SUBP, extra_boundary=[r'std::find_if<'], extra_roots=[KICK_PRED_RX],
          extra_names={'kick_pred': KICK_PRED_RX, 'kick_find_if': r'std::find_if<.*kick_lk'}),
 ]
+# ---- bounded stand-in for the list-shaped free-list invariant
+def freelist(tier, ops, slots):
+    return dict(unit('freelist_bounded_' + tier, 'q_subscribe_lk_pos', QS + 'subscribe_lk(%s, unsigned long)' % SUBP, extra_roots=[rx(QS + 'leave_lk(unsigned long)')],
+                     extra_names={'q_leave_lk': rx(QS + 'leave_lk(unsigned long)')}, hooks=False, defines=['PS_ARRAY_REGS %d' % slots, 'C16_FREELIST_BOUNDED %d' % ops]),
+                harness='h_freelist_bounded', enforce=None, unwind=max(ops, slots) + 2, kind='bounded', tiers=[tier], object_bits=10,
+                bounded='every sequence of <= %d subscribe_lk/leave_lk operations from the empty queue with <= %d registration slots (array-backed vector, all slots real): free list = simple path through exactly the unused slots' % (ops, slots),
+                under_contract=['free-list shape invariant behind the ghost-index contracts of subscribe_lk / leave_lk'])
+UNITS += [freelist('quick', 6, 4), freelist('thorough', 9, 5)]
 # ---- locked wrappers of the queue: forwarders over an abstract `_lk` callee
 def fwd(name, alias, sig, callee_alias, callee_sig, **kw):
     c = rx(callee_sig)
-    return unit(name, alias, sig, extra_names={callee_alias: c}, extra_boundary=[c], hooks=False, **kw)
+    return unit(name, alias, sig, names_opt={callee_alias: c}, extra_boundary=[c], hooks=False, **kw)   # names_opt: a wrapper that stops calling its callee fails a postcondition, not the extraction
 LOCKCHK_POS = [] if os.environ.get('C16_LOCKCHECK_POSITION') else ['PS_NO_LOCKCHK 1']
 PUSH_LK_SIG = QS + 'push_lk(std::unique_lock<std::mutex>&, unsigned long)'
 UNITS += [
@@ -64,4 +72,126 @@ UNITS += [
     fwd('q_push_range', 'qw_push_range', 'void ' + QS + 'push<int const*&>(int const*&, int const*&)', 'fw_push_lk', PUSH_LK_SIG),
     fwd('q_close', 'qw_close', QS + 'close()', 'fw_push_lk', PUSH_LK_SIG),
 ]
-META = dict(level='proof', level_text='TODO', level_note='TODO', technique='TODO', trusted_base=[], assumptions=[], explanation='see level_text')
+SHQ_T = 'std::shared_ptr<cocls::publisher<int>::queue>'
+TYPES2 = dict(TYPES, SHQ=SHQ_T, NAWT='cocls::subscriber<int>::next_awt', COAW='cocls::co_awaiter<cocls::subscriber<int> >', ATOMB='std::atomic<bool>')
+# ---- the co_await protocol as one unit, rely at every lock acquisition
+SUBS = 'cocls::subscriber<int>::'
+PARKED = 'C16_PARKED_FLAG gh_parked'
+PROTO_NAMES = {'sub_ready': rx(SUBS + 'ready()'), 'sub_subscribe': rx(SUBS + 'subscribe(cocls::awaiter*)'), 'sub_check_next': rx(SUBS + 'check_next()')}
+def proto(name, fn, names, mode_pre, under, xtypes=False, xboundary=(), **kw):
+    return dict(name=name, driver='c16_pub.cpp', roots=list(names.values()), names=names, types=TYPES2 if xtypes else TYPES, boundary=BOUNDARY + list(xboundary), lib=LIBS,
+                spec=['C16/ps_spec.h', 'C16/proto_spec.h'], harness='h_' + name.split('__')[0], enforce=fn, kind='protocol',
+                defines=[HOOK_REG, HOOK_LOCK, HOOK_UNLOCK, PARKED, 'C16_MODE_PRE(t) (%s)' % mode_pre], under_contract=under, timeout=900, **kw)
+AWAITED_UNDER = [SUBS + 'ready()', SUBS + 'subscribe(cocls::awaiter*)', SUBS + 'check_next()', 'co_await protocol ready -> subscribe -> check_next with rely']
+UNITS += [
+    proto('proto_awaited__all_values', 'c16_next_awaited', PROTO_NAMES, '(t) == 0', AWAITED_UNDER),
+    proto('proto_awaited__skip', 'c16_next_awaited', PROTO_NAMES, '(t) == 1 || (t) == 2', AWAITED_UNDER),
+    dict(proto('lemma_history', 'c16_next_awaited', PROTO_NAMES, '(t) == 0', ['L: history lemma over the contract of one next() (all_values)']), harness='h_lemma_history', enforce=None,
+         replace=['c16_next_awaited'], loop_contracts=True, kind='lemma', defines=[HOOK_REG, HOOK_LOCK, HOOK_UNLOCK, PARKED, 'C16_MODE_PRE(t) ((t) == 0)', 'C16_LEMMA_HISTORY 1']),
+    proto('proto_polled__all_values', 'c16_next_polled', {'sub_next_ready': rx(SUBS + 'next_ready()')}, '(t) == 0', [SUBS + 'next_ready()']),
+    proto('proto_blocking__all_values', 'c16_next_blocking', {'awt_bool_real': rx(SUBS + 'next_awt::operator bool()')}, '(t) == 0', [SUBS + 'next_awt::operator bool()', 'blocking protocol with rely'],
+          xtypes=True, xboundary=[r'^std::atomic<bool>::wait\(', r'^std::atomic<bool>::notify_all'], names_opt={'st_atomic_wait': r'^std::atomic<bool>::wait\(bool, std::memory_order\) const$'}),
+    proto('proto_blocking__skip', 'c16_next_blocking', {'awt_bool_real': rx(SUBS + 'next_awt::operator bool()')}, '(t) == 1 || (t) == 2', [SUBS + 'next_awt::operator bool()', 'blocking protocol with rely'],
+          xtypes=True, xboundary=[r'^std::atomic<bool>::wait\(', r'^std::atomic<bool>::notify_all'], names_opt={'st_atomic_wait': r'^std::atomic<bool>::wait\(bool, std::memory_order\) const$'}),
+    proto('proto_polled__skip', 'c16_next_polled', {'sub_next_ready': rx(SUBS + 'next_ready()')}, '(t) == 1 || (t) == 2', [SUBS + 'next_ready()']),
+]
+# ---- publisher<int> / subscriber<int> / next_awt members: forwarders over the queue's locking members (abstract callees that log)
+STUBS = {
+    'st_q_subscribe_pos': rx(QS + 'subscribe(%s, unsigned long)' % SUBP), 'st_q_subscribe_recent': rx(QS + 'subscribe(%s)' % SUBP),
+    'st_q_subscribe_copy': rx(QS + 'subscribe(unsigned long, %s)' % SUBP), 'st_q_advance': rx(QS + 'advance(unsigned long, cocls::subscribtion_type)'),
+    'st_q_advance_suspend': rx(QS + 'advance_suspend(unsigned long, cocls::awaiter*)'), 'st_q_leave': rx(QS + 'leave(unsigned long)'),
+    'st_q_get_value': rx(QS + 'get_value(unsigned long, cocls::subscribtion_type)'), 'st_q_push_move': rx(QS + 'push(int&&)'), 'st_q_push_copy': rx(QS + 'push(int const&)'),
+    'st_q_push_range': rx('void ' + QS + 'push<int const*&>(int const*&, int const*&)'), 'st_q_close': rx(QS + 'close()'), 'st_q_kick': rx(QS + 'kick(%s)' % SUBP),
+    'st_q_position': rx(QS + 'position(unsigned long)'),
+    'st_shq_copy': rx(SHQ_T + '::shared_ptr(' + SHQ_T + ' const&)'), 'st_shq_dtor': rx(SHQ_T + '::~shared_ptr()'),
+}
+SUB_STUBS = {'st_sub_ready': rx(SUBS + 'ready()'), 'st_sub_subscribe': rx(SUBS + 'subscribe(cocls::awaiter*)'), 'st_sub_check_next': rx(SUBS + 'check_next()'),
+             'st_atomic_wait': r'^std::atomic<bool>::wait\(bool, std::memory_order\) const$', 'sync_wakeup': r'^cocls::sync_awaiter::wakeup\(cocls::awaiter\*, void\*\)$'}
+def member(name, alias, sig, stubs=STUBS, **kw):
+    r = sig if sig.startswith('^') else rx(sig)
+    bnd = [v for k, v in stubs.items() if k.startswith('st_')] + [r'^std::atomic<bool>::notify_all']
+    return dict(name=name, driver='c16_pub.cpp', roots=[r], names={alias: r}, names_opt=stubs, types=TYPES2, boundary=bnd, lib=LIBS, spec=['C16/ps_spec.h', 'C16/sub_spec.h'],
+                harness='h_' + name, enforce=alias, defines=[HOOK_REG], under_contract=[sig.strip('^$').replace('\\', '')], timeout=600, kind='forwarder', **kw)
+PUBS = 'cocls::publisher<int>::'
+AWS = 'cocls::co_awaiter<cocls::subscriber<int> >::'
+UNITS += [
+    member('pub_publish_move', 'pub_publish_move', r'^decltype .*cocls::publisher<int>::publish<int>\(int&&\)$'),
+    member('pub_publish_copy', 'pub_publish_copy', r'^decltype .*cocls::publisher<int>::publish<int const&>\(int const&\)$'),
+    member('pub_publish_range', 'pub_publish_range', 'void ' + PUBS + 'publish<int const*&>(int const*&, int const*&)'),
+    member('pub_close', 'pub_close', PUBS + 'close()'),
+    member('pub_kick', 'pub_kick', PUBS + 'kick(%s)' % SUBP),
+    member('pub_dtor', 'pub_dtor', PUBS + '~publisher()'),
+    member('sub_ctor', 'sub_ctor', SUBS + 'subscriber(cocls::publisher<int>&, cocls::subscribtion_type)'),
+    member('sub_ctor_pos', 'sub_ctor_pos', SUBS + 'subscriber(cocls::publisher<int>&, unsigned long, cocls::subscribtion_type)'),
+    member('sub_copy', 'sub_copy', SUBS + 'subscriber(cocls::subscriber<int> const&)'),
+    member('sub_dtor', 'sub_dtor', SUBS + '~subscriber()'),
+    member('sub_ready', 'subm_ready', SUBS + 'ready()'),
+    member('sub_subscribe', 'subm_subscribe', SUBS + 'subscribe(cocls::awaiter*)'),
+    member('sub_check_next', 'subm_check_next', SUBS + 'check_next()'),
+    member('sub_position', 'subm_position', SUBS + 'position() const'),
+    member('sub_kick_me', 'subm_kick_me', SUBS + 'kick_me()'),
+    member('sub_value', 'subm_value', SUBS + 'value()'),
+    member('sub_next_ready', 'subm_next_ready', SUBS + 'next_ready()', stubs=SUB_STUBS),
+    member('awt_ready', 'awt_ready', AWS + 'await_ready()', stubs=SUB_STUBS),
+    member('awt_suspend', 'awt_suspend', AWS + 'await_suspend(std::__n4861::coroutine_handle<void>)', stubs=SUB_STUBS),
+    member('awt_resume', 'awt_resume', SUBS + 'next_awt::await_resume()', stubs=SUB_STUBS),
+    member('awt_bool', 'awt_bool', SUBS + 'next_awt::operator bool()', stubs=SUB_STUBS),
+    member('awt_not', 'awt_not', SUBS + 'next_awt::operator!()', stubs=SUB_STUBS),
+]
+# ---- native replays of the two genuine defects (real headers, -fno-access-control; exit != 0 = the real code misbehaves)
+RP_FLAGS = ['-fno-access-control', '-D_GLIBCXX_ASSERTIONS', '-g']
+RP_CLOSE = dict(src='c16_close_race.cpp', mode='all_values', flags=RP_FLAGS)
+RP_CLOSE_SKIP = dict(src='c16_close_race.cpp', mode='skip', flags=RP_FLAGS)
+RP_BLOCK = dict(src='c16_blocking_next.cpp', mode='steps', flags=RP_FLAGS)
+for _u in UNITS:
+    if _u['name'] in ('advance_suspend_lk', 'proto_awaited__all_values'): _u['replay'] = RP_CLOSE
+    elif _u['name'] == 'proto_awaited__skip': _u['replay'] = RP_CLOSE_SKIP
+    elif _u['name'] in ('awt_bool', 'awt_not', 'proto_blocking__all_values', 'proto_blocking__skip'): _u['replay'] = RP_BLOCK
+META = dict(
+    level='proof',
+    level_text=('Every function of publisher<int>::queue that runs under the queue mutex (subscribe_lk x3, leave_lk, advance_lk, advance_suspend_lk, get_value_lk, push_lk incl. both '
+        'loops, kick_lk) is verified against a contract whose clauses are taken from the property statement, over abstract models of the three std containers and an abstract stream '
+        '(ghost-index idiom: ONE arbitrary stream position gh_P with value gh_sval, ONE arbitrary registration slot, ONE arbitrary awaiter - so every clause holds for all positions / '
+        'subscribers / awaiters), for every stream position < 2^40, every window length, symbolic min/max (incl. unlimited), every number of registrations. Queue invariant (DESIGN C16) '
+        'is an obligation at EVERY release of the mutex. push_lk: position advanced by exactly count, window retains what every registered subscriber needs up to max, min/max respected, '
+        'every parked awaiter collected and resumed exactly once, outside the lock, nobody else resumed. The locked wrappers, push x3 / close, publisher<int> and subscriber<int> / next_awt '
+        'members are verified as forwarders (right callee, once, under / not under the lock, right arguments and order, results stored and returned; push/close additionally re-establish the '
+        'precondition of push_lk and define the ghost stream). Thread-modular part: the three forms of next() - co_await (ready -> subscribe -> check_next), blocking (operator bool: up to four '
+        'critical sections) and polled (next_ready) - are each ONE unit running the real translated members down to the container models with a rely step at EVERY lock acquisition (stream '
+        'grows, _closed / kicked become true, parked awaiter woken, window trimmed within the invariant); postcondition = position lemma for one next(): success = position + 1 and value '
+        'gh_stream[new position]; end-of-stream only if kicked, closed and drained, or fallen more than max behind; skipping modes strictly forward, skip_to_recent = newest. History lemma L '
+        '(unbounded number of next() calls, loop invariant over the contract of one next()): the k-th value received is the one published at subscription point + k + 1.'),
+    level_note=('ON THE UNCHANGED TREE THE PROPERTY DOES NOT HOLD: two genuine defects, each with failing obligations, a native replay and a candidate repair (fix_close.diff, fix_blocking.diff): '
+        '(1) advance_suspend_lk returns false on _closed without advancing -> after a close() between await_ready and await_suspend the consumed item is delivered again (all_values: duplicate; '
+        'skipping modes: position not increased, and _q[0] / _q[size()-1] on an EMPTY deque when nothing was published); (2) the blocking form never calls check_next() once it really has to block '
+        '(co_awaiter::wait() binds await_resume statically to the base class): published value lost, bogus end-of-stream, optional dereferenced while disengaged. '
+        'Not proof-level: the free-list shape (list-shaped) is covered by a BOUNDED stand-in only; rely/guarantee soundness and the closure "rely = union of the other threads\' guarantees" are argued, '
+        'not machine-checked (the guarantees are the frame clauses `h != gh_RH ==> T_SAME` of the _lk contracts plus the unlock obligations of push_lk / kick_lk). '
+        'Reported, not an obligation in the default run: queue::position() reads _regs without the mutex (set C16_LOCKCHECK_POSITION=1 to turn the lock-discipline obligation on for unit q_position; '
+        'TSan confirms the race against a reallocating subscribe). T = int only. Behaviour after the first end-of-stream is outside the property (and outside the preconditions).'),
+    technique=('CBMC 6.11 code contracts (requires/ensures/assigns + loop contracts) enforced per function via goto-instrument --dfcc on the C translation (ir2c) of clang IR of the real publisher.h; '
+        'assumed-contract models of std::deque<int>, std::vector<subreg_t>, std::vector<awaiter*>, std::find_if, std::min(initializer_list), std::copy(front_inserter), awaiter::resume; '
+        'forwarder units with logging abstract callees; thread-modular rely step at lock acquisitions (CV_ON_LOCK hook), invariant obligations at lock releases (CV_ON_UNLOCK); history lemma with '
+        'contract replacement + loop invariant; bounded unwinding stand-in for the free list'),
+    trusted_base=[
+        'lib/model_pubsub.c: std::deque<int> as a window over absolute ids (push_front, operator[], size, resize that never grows, std::copy to a front_inserter); content tracked at one arbitrary id',
+        'lib/model_pubsub.c: std::vector<subreg_t> with one arbitrary tracked slot; a reference to any OTHER slot yields arbitrary content constrained by instances of the unit invariant for "every other slot" '
+        '(specs/C16/ps_spec.h c16_reg_other: slot invariant, free-list head is free, no free slot links to a used slot, no self-loop, live subscribers are distinct objects, an awaiter is registered at most once, '
+        'a handle passed by a caller belongs to a registered subscriber); position-encoded iterators; the code never holds references to two different untracked slots at once (true of publisher.h, not checked)',
+        'lib/model_pubsub.c: std::vector<awaiter*> abstracted w.r.t. one arbitrary awaiter (count / first index), lengths exact; awaiter::resume() = counting abstract callee returning an empty suspend point '
+        '(what a resumed coroutine does is C05/C06; re-entrancy into the queue from a resumed party is covered by the rely at the next acquisition)',
+        'specs/C16/ps_spec.h: std::find_if (first match; evaluated with the REAL translated lambda of kick_lk), std::min over an initializer_list of <= 3 elements',
+        'lib/model_mutex.c: std::mutex via pthread_mutex_lock/unlock with lock-discipline obligations and the lock/unlock hooks',
+        'specs/C16/ps_spec.h c16_rely: the rely relation (what other threads may do between two critical sections of this thread)',
+        'std::shared_ptr<queue> copy/destroy = pointer copy + counter (control block / lifetime of the queue object not modelled); std::atomic<bool>::wait / notify_all of sync_awaiter = abstract (blocks until woken)',
+    ],
+    assumptions=[
+        'protocol preconditions: next() is not called again after end-of-stream was reported; one next() at a time per subscriber; a subscriber is not destroyed while its awaiter is parked; an awaiter is registered at most once; `sub` pointers of live subscribers are distinct',
+        'explicit start position <= current stream position (DESIGN); the clause "end-of-stream only when fallen more than max behind" is stated for subscribers the window served at subscription (recent / by copy / explicit position still retained) - for an explicit position older than the window the weaker clause "needed position no longer retained" is proved',
+        'wake-up assumption: a suspended coroutine / blocked thread continues only after its awaiter was resumed, and an awaiter parked in the queue is resumed only by push_lk (publish, close) or kick_lk - both proved to resume exactly the parked awaiters',
+        'arithmetic: _pos < 2^40, registrations < 2^40, batch < 2^20 elements per call (stated preconditions); ghost numbering is mathematical',
+        'rely/guarantee soundness (every interleaving of critical sections satisfies the invariant if each critical section preserves it and tolerates the rely) is the standard paper argument (DESIGN 3.5)',
+        'free-list shape: bounded(6 operations / 4 slots quick, 9 / 5 thorough) only - see coverage.bounded',
+        'queue::position() is exempt from the lock-discipline obligation in the default run (known unlocked read, reported)',
+    ],
+    explanation='see level_text / level_note')
